@@ -258,9 +258,20 @@ fn gen_cfg(t: &mut Tape) -> Cfg {
     c
 }
 
+
+/// who called delta: free text must pass whatever git command produced it (`git show <tag>`,
+/// `git log`, `git status`, ...); only `git show REV:file`, grep and blame callers turn handlers on
+pub fn identities() -> Vec<Vec<String>> {
+    let v = |a: &[&str]| a.iter().map(|s| s.to_string()).collect::<Vec<_>>();
+    vec![v(&["git", "diff"]), v(&["git", "show", "v1.0"]), v(&["git", "log", "-p"]), v(&["git", "show", "HEAD"]), v(&["git", "diff"]), v(&["git", "show", "-s", "--format=%B", "HEAD"]), v(&["git", "show", "--oneline", "HEAD~2"])]
+}
+
 impl Prop for C04 {
     fn id(&self) -> &'static str {
         "C04"
+    }
+    fn identities(&self) -> Vec<Vec<String>> {
+        identities()
     }
     fn cases(&self, tier: Tier) -> usize {
         match tier {
@@ -272,7 +283,7 @@ impl Prop for C04 {
         2500
     }
     fn rule(&self) -> String {
-        "cases = stream of free-text lines (arbitrary Unicode, metadata-like prefixes, embedded balanced/unbalanced SGR/OSC/CSI sequences, CR variants, invalid UTF-8, NUL), never starting with a construct-opening marker (judged with escape sequences removed; a line starting with `{` that is not an `rg --json` record is free text too), (i) alone, (ii) before the first construct, (iii) as commit metadata/message between a commit line and its diff, interleaved with rendered git sections; every line carries a unique sentinel; x all option sets (incl. --relative-paths with GIT_PREFIX; free lines avoid the diffstat shape ` path | N +-`); neutral calling process. Oracle: (i) stdout == stdin after only the three permitted transforms computed independently (CR normalisation, lossy UTF-8, truncation); (ii)/(iii) every free line occurs exactly once in stdout, byte-identical, free lines in input order, and each section's sentinels lie between those of the neighbouring free blocks. Non-trivial = >=1 free line with an escape sequence / non-ASCII / CR / invalid byte and, for (ii)/(iii), >=1 rendered section; distinct by hash of (input, argv).".to_string()
+        "cases = stream of free-text lines (arbitrary Unicode, metadata-like prefixes, embedded balanced/unbalanced SGR/OSC/CSI sequences, CR variants, invalid UTF-8, NUL), never starting with a construct-opening marker (judged with escape sequences removed; a line starting with `{` that is not an `rg --json` record is free text too), (i) alone, (ii) before the first construct, (iii) as commit metadata/message between a commit line and its diff, interleaved with rendered git sections; every line carries a unique sentinel; x all option sets (incl. --relative-paths with GIT_PREFIX; free lines avoid the diffstat shape ` path | N +-`); calling processes git diff / git show <tag|rev> / git log -p / git show -s (none of which turns a text handler on). Oracle: (i) stdout == stdin after only the three permitted transforms computed independently (CR normalisation, lossy UTF-8, truncation); (ii)/(iii) every free line occurs exactly once in stdout, byte-identical, free lines in input order, and each section's sentinels lie between those of the neighbouring free blocks. Non-trivial = >=1 free line with an escape sequence / non-ASCII / CR / invalid byte and, for (ii)/(iii), >=1 rendered section; distinct by hash of (input, argv).".to_string()
     }
     fn assumptions(&self) -> Vec<String> {
         vec![
@@ -534,6 +545,9 @@ pub struct C04R;
 impl Prop for C04R {
     fn id(&self) -> &'static str {
         "C04R"
+    }
+    fn identities(&self) -> Vec<Vec<String>> {
+        identities()
     }
     fn cases(&self, _tier: Tier) -> usize {
         0
